@@ -285,6 +285,23 @@ def r6_pairing(repo, rep, cls):
                   'the i-th geo label is taken from `%s` while the i-th time series is row i of `%s`: the two orders differ when input rows are not sorted by geo, so the wrong geo is reported and removed'
                   % (le, norm(rbase)), f.loc(ln.ast))
   rep.floor('positional label/row pairings', n_pairs, 1)
+  # the geo-by-date table itself must be built by label (pivot), on every path: stacking per-geo values in row order
+  # makes the series depend on the order of the input rows
+  n_tab = 0
+  for n in g.nodes:
+    if n.kind != 'stmt' or not isinstance(n.ast, ast.Assign):
+      continue
+    txt = norm(rd.expand(n, n.ast.value, depth=3)[0])
+    if 'pivot_table(' in norm(n.ast.value) or 'pivot(' in norm(n.ast.value) or ('groupby(' in norm(n.ast.value) and 'unstack(' in norm(n.ast.value)):
+      n_tab += 1
+      rep.ok('R6/label-based-table', 'geo-by-date table built by label: %s' % norm(n.ast.value)[:60], loc=f.loc(n.ast))
+    elif re.search(r'(np|numpy)\.(vstack|stack|array|column_stack|row_stack)\(', norm(n.ast.value)) and re.search(r'groupby\(|for \w+(, \w+)? in ', txt) \
+        and re.search(r'\.to_numpy\(\)|\.values\b|\.tolist\(\)', txt):
+      n_tab += 1
+      rep.violation('R6/label-based-table', f.qualname, norm(n.ast)[:140],
+                    'the geo-by-date table is assembled by stacking the values of each geo in input row order (`%s`): the columns are labelled with sorted dates but the values are not aligned by date, so shuffling the rows changes which geos are reported'
+                    % norm(n.ast.value)[:100], f.loc(n.ast))
+  rep.floor('constructions of the geo-by-date table', n_tab, 1)
 
 
 KEEP_AS_CALLS = {'_create_analysis_data', '_detect_noisy_geos', '_detect_outliers', '_correlation_test', '_correlation_bound', '_min_correlation_threshold'}
